@@ -266,7 +266,10 @@ def check_lon(rep, nlon, o, latest_odd):
         return False
     NLn, NIn = nl[0], ni[0]
     i = 1 if latest_odd else 0
-    if NIn != "max((%s-%d),1)" % (NLn, i):
+    accepted = {"max((%s-%d),1)" % (NLn, i)}
+    if i == 0:
+        accepted.add("max(%s,1)" % NLn)         # NL - 0 written as NL
+    if NIn not in accepted:
         return False
     # NL must be evaluated at the returned latitude
     pos = o.retval.fields[0]
